@@ -1,16 +1,19 @@
 #!/usr/bin/env python3
-"""usage: tools/seedsave.py PROP K 'what I ran / result text'  -> /verif/seeded/PROP-mK/{patch.diff,demo.py,meta.json}"""
+"""usage: tools/seedsave.py PROP K 'what I ran / result text' [SRC [SRCK]] -> /verif/seeded/PROP-mK/{patch.diff,demo.py,meta.json}
+(SRC: name of the agent's output directory /tmp/mut/SRC.out if it differs from PROP; SRCK: its number there)"""
 import json, os, shutil, sys, glob
 prop, k, note = sys.argv[1], sys.argv[2], sys.argv[3]
-out = f'/tmp/mut/{prop}.out'
+src = sys.argv[4] if len(sys.argv) > 4 else prop
+sk = sys.argv[5] if len(sys.argv) > 5 else k
+out = f'/tmp/mut/{src}.out'
 dst = f'/verif/seeded/{prop}-m{k}'
 os.makedirs(dst, exist_ok=True)
-shutil.copy(f'{out}/m{k}.diff', f'{dst}/patch.diff')
-demo = sorted(glob.glob(f'{out}/m{k}_demo*'))[0]
+shutil.copy(f'{out}/m{sk}.diff', f'{dst}/patch.diff')
+demo = sorted(glob.glob(f'{out}/m{sk}_demo*'))[0]
 shutil.copy(demo, f'{dst}/' + ('demo.py' if demo.endswith('.py') else os.path.basename(demo)))
 meta = {}
 try:
-    meta = json.load(open(f'{out}/m{k}.json'))
+    meta = json.load(open(f'{out}/m{sk}.json'))
 except Exception as e:
     meta = {'property': prop, 'summary': f'(agent meta unreadable: {e})'}
 meta['property'] = prop
